@@ -23,6 +23,7 @@ EXTENDS Detection, TLC, Json
 CONSTANTS Universe,     \* "events" | "clips"
           MaxTotal,     \* "events": at most this many sound events in the varied clip
           MaxSide,      \* "events": at most this many per side
+          Rich,         \* BOOLEAN: larger alphabets (a touching box, four score vectors)
           Matcher,      \* "positive" (C07 holds) | "complete" (as found)
           ClipAlg,      \* "fixed" | "found"
           ExportAt      \* "next" (every initial state) | "filter" (sampled behaviours, -simulate)
@@ -36,9 +37,9 @@ I1 == B(0, 2)
 I2 == B(1, 3)        \* overlaps I1 (IoU 1/3)
 I3 == B(4, 6)        \* disjoint from I1 and I2
 I4 == B(2, 4)        \* touches I1 and I3, overlaps I2
-GeomOpts == {<<>>, <<I1>>, <<I2>>, <<I3>>}
+GeomOpts == {<<>>, <<I1>>, <<I2>>, <<I3>>} \cup (IF Rich THEN {<<I4>>} ELSE {})
 AnnEvents  == [g : GeomOpts, cls : {0, 1, 2}]
-PredEvents == [g : GeomOpts, sc : {<<3, 1>>, <<2, 0>>, <<0, 0>>}]
+PredEvents == [g : GeomOpts, sc : {<<3, 1>>, <<0, 0>>} \cup (IF Rich THEN {<<2, 0>>, <<1, 2>>} ELSE {})]
 SeqsOf(S, k) == UNION {[1..l -> S] : l \in 0..k}
 Anchor == [id |-> 1, anns |-> <<[g |-> <<I1>>, cls |-> 1]>>, preds |-> <<[g |-> <<I2>>, sc |-> <<3, 1>>]>>]
 \* "events": the anchor clip (keeps the run-level metrics defined) and one clip with every arrangement of events
